@@ -62,7 +62,7 @@ PROPS = {
         runs={"quick": [["query-C13", "--scenarios", "20000"]], "thorough": [["query-C13", "--scenarios", "300000"]]},
         trusted=QUERY_TRUST,
         statement="parse ∘ render = ast and eval ∘ ast = denote on well-typed inputs",
-        partial="proved: eval(ast e) = denote e for all well-typed (e, doc), all number arithmetics and regex engines; EXISTS/DOES NOT EXIST = presence for all paths; the parser run on the canonical token sequence of any expression (parentheses only where precedence needs them) returns ast e and consumes every token (parser_builds_documented_tree), hence AND binds tighter than OR, chains associate to the left, end to end canonical_filter_is_denote. Text level (Lemmas/LexSpec.lean, ParseSim.lean): lexer_reads_spelled_tokens (NextToken on any sequence of lexable tokens written with arbitrary white space between them serves exactly those tokens, then EOF), the parser does not look at lexer positions (parseSrc_sim), hence text_parses_to_documented_tree / canonical_text_parses / filter_from_text_is_denote: BuildFilter's parse of any such spelling of an expression's canonical tokens is the documented tree, and the built filter accepts a well-typed document exactly when the expression is true. Tokens may also stand next to each other wherever the second cannot continue the first (FollowOK: user.name, tags[0], a==1; tight_text_parses). Parentheses the grammar does not need are part of the expression type (Expr.group: same tree, same meaning). Not covered by theorems: single-quoted strings, hex and exponent number syntax, escapes other than the canonical ones — these stay tied by the three-way correspondence on rendered texts",
+        partial="proved: eval(ast e) = denote e for all well-typed (e, doc), all number arithmetics and regex engines; EXISTS/DOES NOT EXIST = presence for all paths; the parser run on the canonical token sequence of any expression (parentheses only where precedence needs them) returns ast e and consumes every token (parser_builds_documented_tree), hence AND binds tighter than OR, chains associate to the left, end to end canonical_filter_is_denote. Text level (Lemmas/LexSpec.lean, ParseSim.lean): lexer_reads_spelled_tokens (NextToken on any sequence of lexable tokens written with arbitrary white space between them serves exactly those tokens, then EOF), the parser does not look at lexer positions (parseSrc_sim), hence text_parses_to_documented_tree / canonical_text_parses / filter_from_text_is_denote: BuildFilter's parse of any such spelling of an expression's canonical tokens is the documented tree, and the built filter accepts a well-typed document exactly when the expression is true. Tokens may also stand next to each other wherever the second cannot continue the first (FollowOK: user.name, tags[0], a==1; tight_text_parses). Parentheses the grammar does not need are part of the expression type (Expr.group: same tree, same meaning). Strings may be written between double quotes or — when they contain no ' — between single quotes, chosen per literal (tokTextQ; canonical_text_parses_either_quote). Not covered by theorems: hex and exponent number syntax, escapes other than the canonical ones — these stay tied by the three-way correspondence on rendered texts",
     ),
     "C14": dict(
         modules=["Syzgy.Props.C14"], ties=["Query"],
